@@ -23,10 +23,10 @@ if [ $res_apply = ok ]; then
     rm -f tests/zz_demo.rs
   elif [ -f "$D/demo$N.sh" ]; then
     cargo build --workspace --offline >/dev/null 2>&1
-    if bash "$D/demo$N.sh" >/tmp/sv/$TAG.with.log 2>&1; then demo_with=pass; else demo_with=fail; fi
+    if bash "$D/demo$N.sh" "$WT" >/tmp/sv/$TAG.with.log 2>&1; then demo_with=pass; else demo_with=fail; fi
     git checkout -- . 2>/dev/null
     cargo build --workspace --offline >/dev/null 2>&1
-    if bash "$D/demo$N.sh" >/tmp/sv/$TAG.without.log 2>&1; then demo_without=pass; else demo_without=fail; fi
+    if bash "$D/demo$N.sh" "$WT" >/tmp/sv/$TAG.without.log 2>&1; then demo_without=pass; else demo_without=fail; fi
   fi
 fi
 cd /
